@@ -593,6 +593,7 @@ func nonEmptyString(v ssa.Value, depth int) bool {
 	if depth > 6 {
 		return false
 	}
+	v = rv(v)
 	if s, ok := constString(v); ok {
 		return s != ""
 	}
